@@ -444,13 +444,26 @@ pub fn run(tier: Tier, _replay: Option<String>) -> i32 {
     let mut scs = vec![];
     for &preset in &presets {
         for &writer in &writers {
+            // quick: a,b <= 2 plus three longer histories whose second chunk stays partial
+            let mut abs: Vec<(usize, usize)> = vec![];
             for a in 0..=maxab {
                 for b in 0..=maxab {
+                    abs.push((a, b));
+                }
+            }
+            if tier == Tier::Quick {
+                abs.extend([(0usize, 3usize), (3, 0), (1, 3)]);
+            }
+            for (a, b) in abs {
+                {
                     let n = a + b;
                     if n == 0 {
                         continue;
                     }
                     for &chunk in &chunks {
+                        if (a > maxab || b > maxab) && chunk != 2 {
+                            continue;
+                        }
                         for chains in [1usize, 2] {
                             for flush_mask in 0..(1u32 << n) {
                                 // the filesystem store and the second chain get a reduced menu
